@@ -1,0 +1,27 @@
+//go:build verif
+
+// Verification hooks (build tag verif) for C05: accessors for the leader-side entry-log truncation decision
+// (deleteEntryLog / forceDeleteEntryLog) so that an external harness can drive it round by round with a scripted
+// raft status and a controlled clock. No behaviour of its own.
+package raftconn
+
+import (
+	"time"
+
+	"go.etcd.io/etcd/raft/v3"
+)
+
+// VerifSetRaftNode installs the etcd/raft node object the RaftNode talks to (normally done by InitAndStartNode).
+func (n *RaftNode) VerifSetRaftNode(r raft.Node) { n.node = r }
+
+// VerifTolerateStart returns the start of the running tolerance period of the truncation decision in unix
+// nanoseconds (0: not running).
+func (n *RaftNode) VerifTolerateStart() int64 { return n.tolerateStartTime.Load() }
+
+// VerifAgeTolerateTimer makes a running tolerance period look d older, as if d of wall-clock time had passed
+// since the last decision round. Nothing happens when no tolerance period is running.
+func (n *RaftNode) VerifAgeTolerateTimer(d time.Duration) {
+	if s := n.tolerateStartTime.Load(); s != 0 {
+		n.tolerateStartTime.Store(s - int64(d))
+	}
+}
